@@ -30,6 +30,24 @@ CHECKS = {
         "points and grids beyond the bounds are not covered; (b) relies on C03 for the nonlinear terms themselves.",
         "DESIGN.md §4 C02",
     ),
+    "C04": (
+        "bounded exhaustive exploration: every wavevector of every grid x amplitude/phase x scaling mode x indexing; every grid delta for the round trip",
+        "Every wavevector k of the N^D grid (all sign combinations, DC, every Nyquist combination) is turned into a single-mode field on the library's "
+        "grid and pushed through fft, the three scaling arrays, get_fourier_coefficients, derivative, make_incompressible, masks and mode blocks, for "
+        "both meshgrid indexings; expected values come from explicit DFT sums and the documented semantics. ifft(fft(.)) is applied to every grid "
+        "delta, which by linearity covers every real state. Exhaustive within the bounds on N (1D 2..16, 2D 2..8, 3D 2..5; thorough 24/12/8).",
+        "Trusted: explicit DFT sums and layout rule in mc/ref.py, numpy. N beyond the bounds is not covered.",
+        "DESIGN.md §4 C04",
+    ),
+    "C05": (
+        "bounded exhaustive exploration: full real Fourier basis below Nyquist x derivative orders x channel counts (linearity lift), all grid deltas for Poisson",
+        "ex.derivative (orders 1-6, C in {1,2,3}), the Laplace (0,2,4,6) and gradient-inner-product (1,3,5) operators and the Poisson solver (2,4) are "
+        "applied to every cos/sin basis function below Nyquist for D=1..3, odd and even N, four domain extents, and compared with analytic derivatives "
+        "and symbols; the Poisson equation is additionally verified on every grid delta with an independent numpy operator. Linearity makes the basis "
+        "decide every Nyquist-free trigonometric polynomial of a configuration.",
+        "Trusted: analytic derivatives of cosines, numpy FFT for the independent Poisson residual. Bounds on N and the L lattice.",
+        "DESIGN.md §4 C05",
+    ),
     "C14": (
         "bounded exhaustive exploration of the option product, lock-step with a plain-loop reference model",
         "Every (n, include_init, takes_aux, constant_aux, pytree shape, aux shape) combination up to the bound, every window (T, sub_len), "
